@@ -42,7 +42,9 @@ def evaluate(sid, tier, seed):
             res["demo_clean_rc"] = sh(["/venv/bin/python", str(demo)], env=env_clean, cwd="/tmp", timeout=1800).returncode
             res["demo_mutant_rc"] = sh(["/venv/bin/python", str(demo)], env=env_mut, cwd="/tmp", timeout=1800).returncode
         for prop in [meta["property"]] + meta.get("also", []):
-            env = dict(os.environ, DTS_SRC=str(wt / "src"), VERIF_SEED=str(seed))
+            scratch = VERIF / "harness" / ".work" / "seeded" / sid
+            env = dict(os.environ, DTS_SRC=str(wt / "src"), VERIF_SEED=str(seed), VERIF_EVIDENCE_DIR=str(scratch / "evidence"),
+                       VERIF_REPLAY_DIR=str(scratch / "replay"))   # never into /verif/evidence: that holds runs against /repo only
             t0 = time.time()
             r = sh(["/venv/bin/python", str(VERIF / "harness" / "vcheck.py"), prop, "--tier", tier], env=env, cwd=VERIF, timeout=7200)
             lines = [l for l in r.stdout.splitlines() if l.startswith("VIOLATION") or l.startswith("[" + prop)]
